@@ -81,8 +81,72 @@ void vf_harness()
                            "expect": r"assertion"}])
 
 
+MS = "src/Matrix/MatrixSparse.cpp"
+SPARSE = [
+    ("prodMatMatInPlace", None), ("prodNormMatMatInPlace", None), ("prodNormMatVecInPlace", None), ("prodVecMat", None), ("prodMatVec", None), ("addMatInPlace", None),
+    ("_prodMatVecInPlacePtr", "void MatrixSparse::_prodMatVecInPlacePtr(const DPtr& x, const DPtr& y, bool transpose) const"),
+    ("_prodVecMatInPlacePtr", "void MatrixSparse::_prodVecMatInPlacePtr(const DPtr& x, const DPtr& y, bool transpose) const"),
+    ("_addProdMatVecInPlaceToDestPtr", "void MatrixSparse::_addProdMatVecInPlaceToDestPtr(const DPtr& x, const DPtr& y, bool transpose) const"),
+]
+
+
+def unit_sparse_dims():
+    fns = [Fn("AMatrix::_checkLink", "src/Matrix/AMatrix.cpp", r"^bool AMatrix::_checkLink\(int nrow1,[^{]*?bool transpose3\) const\s*$",
+              csig="bool MatrixSparse::_checkLink(int nrow1, int ncol1, bool transpose1, int nrow2, int ncol2, bool transpose2, int nrow3, int ncol3, bool transpose3) const")]
+    for name, csig in SPARSE:
+        rw = []
+        if name == "prodMatMatInPlace":
+            rw = [(r"dynamic_cast<const MatrixSparse\*>\((\w)\)", r"VF_as_sparse(\1)", 2)]
+        if name == "addMatInPlace":   # scalar * class-object is outside CBMC's overload resolution: scalar factors dropped (shapes unaffected)
+            rw = [(r"cx \* _eigenMatrix \+ cy \* y\._eigenMatrix", "_eigenMatrix + y._eigenMatrix", 1)]
+        fns.append(Fn("MatrixSparse::" + name, MS, r"^(?:void|int|VectorDouble) MatrixSparse::%s\([^)]*\)(?: const)?\s*$" % name, csig=csig, rewrites=rw))
+    h = r"""
+#define SHAPE(M, R, C) ((M)._eigenMatrix.r == (R) && (M)._eigenMatrix.c == (C) && (M)._nRows == (R) && (M)._nCols == (C))
+static void mk(MatrixSparse& M) { M._nRows = nondet_int(); M._nCols = nondet_int(); __CPROVER_assume(1 <= M._nRows && M._nRows <= 1000 && 1 <= M._nCols && M._nCols <= 1000);
+  M._eigenMatrix.r = M._nRows; M._eigenMatrix.c = M._nCols; M._flagCheckAddress = nondet_bool(); M._csMatrix = 0; }
+int g_eigen_violation;
+#define EIGEN_OK(name) __CPROVER_assert(!g_eigen_violation, name ": every Eigen::Map stays inside its buffer and every Eigen product / sum / assignment has conforming dimensions")
+void vf_harness()
+{
+  MatrixSparse M, X, Y; mk(M); mk(X); mk(Y); g_eigen_violation = 0;
+  int R = M._nRows, C = M._nCols;
+  VectorDouble v(nondet_int()); __CPROVER_assume(0 <= v.n && v.n <= 1000);
+  bool t = nondet_bool(), t2 = nondet_bool();
+  int sel = nondet_int();
+  /* each case: the method's documented precondition (what _checkLink / the public wrapper tests when address checking is on), then the call */
+  if (sel == 0) { int xr = t ? X._nCols : X._nRows, xc = t ? X._nRows : X._nCols, yr = t2 ? Y._nCols : Y._nRows, yc = t2 ? Y._nRows : Y._nCols;
+                  __CPROVER_assume(xc == yr && R == xr && C == yc);
+                  M.prodMatMatInPlace(&X, &Y, t, t2); __CPROVER_assert(SHAPE(M, xr, yc), "prodMatMatInPlace: result is op(x).rows x op(y).cols"); EIGEN_OK("prodMatMatInPlace"); }
+  if (sel == 1) { __CPROVER_assume(Y._nRows == Y._nCols && Y._nRows == (t ? X._nRows : X._nCols));
+                  int n = t ? X._nCols : X._nRows; __CPROVER_assume(R == n && C == n);
+                  M.prodNormMatMatInPlace(&X, &Y, t); __CPROVER_assert(SHAPE(M, n, n), "prodNormMatMatInPlace result shape"); EIGEN_OK("prodNormMatMatInPlace"); }
+  if (sel == 2) { __CPROVER_assume(v.n == 0 || v.n == (t ? X._nRows : X._nCols));
+                  int n = t ? X._nCols : X._nRows; __CPROVER_assume(R == n && C == n);
+                  M.prodNormMatVecInPlace(&X, v, t); __CPROVER_assert(SHAPE(M, n, n), "prodNormMatVecInPlace result shape"); EIGEN_OK("prodNormMatVecInPlace"); }
+  if (sel == 3) { __CPROVER_assume(v.n == (t ? C : R)); VectorDouble y = M.prodVecMat(v, t); __CPROVER_assert(y.n == (t ? R : C), "prodVecMat result length"); EIGEN_OK("prodVecMat"); }
+  if (sel == 4) { __CPROVER_assume(v.n == (t ? R : C)); VectorDouble y = M.prodMatVec(v, t); __CPROVER_assert(y.n == (t ? C : R), "prodMatVec result length"); EIGEN_OK("prodMatVec"); }
+  if (sel == 5) { __CPROVER_assume(X._nRows == R && X._nCols == C); M.addMatInPlace(X, 1., 1.); __CPROVER_assert(SHAPE(M, R, C), "addMatInPlace keeps the shape"); EIGEN_OK("addMatInPlace"); }
+  /* raw-pointer kernels with the buffers the public wrappers pass: y = op(M) x  (x: C or R values), y = x op(M) */
+  if (sel == 6) { DPtr x, y; x.avail = t ? R : C; y.avail = t ? C : R; M._prodMatVecInPlacePtr(x, y, t); EIGEN_OK("_prodMatVecInPlacePtr"); }
+  if (sel == 7) { DPtr x, y; x.avail = t ? C : R; y.avail = t ? R : C; M._prodVecMatInPlacePtr(x, y, t); EIGEN_OK("_prodVecMatInPlacePtr"); }
+  if (sel == 8) { DPtr x, y; x.avail = t ? R : C; y.avail = t ? C : R; M._addProdMatVecInPlaceToDestPtr(x, y, t); EIGEN_OK("_addProdMatVecInPlaceToDestPtr"); }
+  VF_REACH();
+}
+"""
+    return Unit("C11.MatrixSparse.dimensions", fns, mode="cpp", prelude=open(os.path.join(VERIF, "stubs", "eigen_stub.hpp")).read(), harness=h, checks=[],
+                claim=("Eigen-backed product kernels of MatrixSparse (9 methods + AMatrix::_checkLink, real text verbatim, loop-free => all shapes, both transposition "
+                       "flags): under each method's documented precondition every Eigen::Map stays inside the buffer its public wrapper passes, every Eigen "
+                       "product/sum/assignment has conforming dimensions, and the result has the shape of op(x) op(y)"),
+                assumptions=["Route X: Eigen objects are ghosts carrying (rows, cols) only - values, sparsity pattern and numerical accuracy are not modelled",
+                             "isFlagEigen() is true (library default); the csparse branch is not under contract",
+                             "dynamic_cast<const MatrixSparse*> replaced by a cast (all operands sparse in this unit; 2 must-fire rewrites)"],
+                trusted=["stubs/eigen_stub.hpp (Eigen preconditions as documented)"],
+                canaries=[{"fn": "MatrixSparse::prodMatVec", "rx": r"VectorDouble y\(transpose \? getNCols\(\) : getNRows\(\)\);", "rp": "VectorDouble y(transpose ? getNRows() : getNCols());",
+                           "expect": r"assertion"}])
+
+
 def units(tier):
-    return [unit_dense_dims()]
+    return [unit_dense_dims(), unit_sparse_dims()]
 
 
 META = {
@@ -90,7 +154,7 @@ META = {
     "explanation": "Shape/index contracts of the Eigen-backed dense kernels for every shape; numerical values, sparse storage, decompositions and thread-count independence are not decidable here.",
     "trusted_base": ["CBMC 6.11 C++ front end", "Eigen (numerics)", "stub classes"],
     "assumptions": [],
-    "not_covered": ["values computed by Eigen/csparse", "sparse back ends", "Cholesky / eigen-decomposition", "thread-count independence (no thread model)",
+    "not_covered": ["values computed by Eigen/csparse", "csparse storage of MatrixSparse and its non-product methods", "Cholesky / eigen-decomposition", "thread-count independence (no thread model)",
                     "generic AMatrix fallbacks and VectorHelper reductions (planned, not built)"],
 }
 MANIFEST = {
